@@ -103,7 +103,7 @@ FULL = dict(domains=DOMAINS, cpaths=CPATHS, maxage=MAXAGE, secure=[False, True],
 
 
 def history(ctx, k=3, first=None, hosts=None, names=("a", "b"), steps=None, final_queries=1, alpha="full",
-            set_host=None):
+            set_host=None, quick_time=False):
     import aiohttp.cookiejar as cj
     from yarl import URL
     from refs import ref_cookies
@@ -164,7 +164,7 @@ def history(ctx, k=3, first=None, hosts=None, names=("a", "b"), steps=None, fina
             jar.update_cookies_from_headers([hdr], url)
             ref.set_cookie(clock.now, host, rpath, name, value, dom, cpath, sec, ma)
         elif kind == "advance":
-            dt = ctx.pick(f"dt{i}", [1, 2, 10])
+            dt = ctx.pick(f"dt{i}", [1, 10] if alpha == "small" and quick_time else [1, 2, 10])
             clock.now += dt
             trace.append(("advance", dt))
         elif kind == "clear":
@@ -255,7 +255,7 @@ def jobs(tier):
         for h in two:
             out.append(dict(name="hist-" + "-".join(sh) + "-" + h, func="history",
                             params=dict(k=len(sh), first=sh, hosts=two if heavy else core_hosts, set_host=h,
-                                        names=("a",) if heavy else ("a", "b"), alpha="small"), limits=lim))
+                                        names=("a",) if heavy else ("a", "b"), alpha="small", quick_time=quick), limits=lim))
     return out
 
 
